@@ -695,7 +695,9 @@ carquet_status_t carquet_writer_close(carquet_writer_t* writer) {
     }
 
     /* Flush and close */
-    fflush(writer->file);
+    if (fflush(writer->file) != 0) {
+        status = CARQUET_ERROR_FILE_WRITE;
+    }
 
 cleanup:
     /* Free resources */
@@ -705,7 +707,9 @@ cleanup:
     }
 
     if (writer->owns_file && writer->file) {
-        fclose(writer->file);
+        if (fclose(writer->file) != 0 && status == CARQUET_OK) {
+            status = CARQUET_ERROR_FILE_WRITE;
+        }
         writer->file = NULL;
     }
 
